@@ -236,10 +236,48 @@ func c05Held(what string, n int) string {
 	return "held ok"
 }
 
+// c05Big: `ls big <count> <client page size> <omit link>`: count tags listed directly and through
+// client+server; the two listings are the same (no size is too large for a page).
+func c05Big(count, pageSize int, omitLink bool) string {
+	ctx := context.Background()
+	m := ocimem.New()
+	blob := []byte("b")
+	m.PushBlob(ctx, c05Repo, ociregistry.Descriptor{MediaType: "application/octet-stream", Digest: ociregistry.Digest(sha256Digest(blob)), Size: 1}, bytes.NewReader(blob))
+	for i := 0; i < count; i++ {
+		if _, err := m.PushManifest(ctx, c05Repo, fmt.Sprintf("t%06d", i), []byte("manifest"), mtOpaque); err != nil {
+			return "big populate failed"
+		}
+	}
+	ch := newChain(m, 1, &ociserver.Options{OmitLinkHeaderFromResponses: omitLink}, &ociclient.Options{ListPageSize: pageSize})
+	defer ch.Close()
+	direct, err1 := ociregistry.All(m.Tags(ctx, c05Repo, ""))
+	wired, err2 := ociregistry.All(ch.regs[1].Tags(ctx, c05Repo, ""))
+	if err1 != nil || len(direct) != count {
+		return "big direct listing wrong"
+	}
+	if err2 != nil {
+		return "big ok (ended in an error)"
+	}
+	if len(wired) != len(direct) {
+		return fmt.Sprintf("big silently short: %d of %d tags through client and server, no error", len(wired), len(direct))
+	}
+	for i := range wired {
+		if wired[i] != direct[i] {
+			return fmt.Sprintf("big differs at %d", i)
+		}
+	}
+	return "big ok"
+}
+
 func (*c05) Impl(c Case) []string {
 	out := make([]string, len(c.Lines))
 	for i, l := range c.Lines {
 		out[i] = guard(func() string {
+			if t := strings.Split(l, " "); len(t) == 5 && t[0] == "ls" && t[1] == "big" {
+				n, _ := strconv.Atoi(t[2])
+				ps, _ := strconv.Atoi(t[3])
+				return c05Big(n, ps, t[4] == "1")
+			}
 			if t := strings.Split(l, " "); len(t) == 4 && t[0] == "ls" && t[1] == "held" {
 				n, _ := strconv.Atoi(t[3])
 				return c05Held(t[2], n)
@@ -409,6 +447,10 @@ func (*c05) Gen(rng *RNG, tier string) []Case {
 	stacks := []string{"mem", "wire", "wire+wire", "debug", "select", "sub", "unify", "wire+debug", "debug+wire", "select+wire", "wire+select",
 		"sub+wire", "wire+sub", "unify+wire", "sub+select", "select+sub", "unify+select+wire", "sub+wire+wire", "unify+sub",
 		"unifyerr", "unifyerr+debug", "unifyerr+select"}
+	// page sizes above ten thousand and more items than that
+	for _, c := range [][3]int{{10050, 20000, 0}, {10050, 20000, 1}, {10001, 10001, 0}, {10000, 10000, 1}} {
+		cases = append(cases, Case{Tag: "big", Lines: []string{fmt.Sprintf("ls big %d %d %d", c[0], c[1], c[2])}})
+	}
 	for _, n := range []int{1, 2, 5, 8, 9, 16, 33} {
 		cases = append(cases, Case{Tag: "held", Lines: []string{fmt.Sprintf("ls held repos %d", n), fmt.Sprintf("ls held tags %d", n)}})
 	}
@@ -479,6 +521,12 @@ func (*c05) Oracle(c Case, impl []string) []Failure {
 	for i, l := range c.Lines {
 		if i >= len(impl) {
 			break
+		}
+		if t := strings.Split(l, " "); len(t) == 5 && t[1] == "big" {
+			if !strings.HasPrefix(impl[i], "big ok") {
+				fs = append(fs, Failure{Class: "list-big", Oracle: "listing_complete_at_any_size", Index: i, Expected: "big ok", Observed: impl[i]})
+			}
+			continue
 		}
 		if t := strings.Split(l, " "); len(t) == 4 && t[1] == "held" {
 			if impl[i] != "held ok" {
